@@ -566,6 +566,23 @@ func c19Run(c c19Case, st *fw.Stats) []fw.Viol {
 				{"render.XML", "application/xml; charset=utf-8", func(w http.ResponseWriter) error { return render.XML(w, c19XML{ID: 1}) }, ""},
 				{"render.XMLPretty", "application/xml; charset=utf-8", func(w http.ResponseWriter) error { return render.XMLPretty(w, c19XML{ID: 1}) }, ""},
 			}
+			// the string / byte renderers over the whole string alphabet (incl. the empty string and nil bytes)
+			for _, sv := range c19Strings {
+				sv := sv
+				bv := []byte(sv)
+				if sv == "" {
+					bv = nil
+				}
+				q := fmt.Sprintf("(%q)", sv)
+				fns = append(fns,
+					rf{"render.Text" + q, "text/plain; charset=utf-8", func(w http.ResponseWriter) error { return render.Text(w, sv) }, "=" + sv},
+					rf{"render.Plain" + q, "text/plain; charset=utf-8", func(w http.ResponseWriter) error { return render.Plain(w, sv) }, "=" + sv},
+					rf{"render.TextBytes" + q, "text/plain; charset=utf-8", func(w http.ResponseWriter) error { return render.TextBytes(w, bv) }, "=" + sv},
+					rf{"render.HTML" + q, "text/html; charset=utf-8", func(w http.ResponseWriter) error { return render.HTML(w, sv) }, "=" + sv},
+					rf{"render.HTMLBytes" + q, "text/html; charset=utf-8", func(w http.ResponseWriter) error { return render.HTMLBytes(w, bv) }, "=" + sv},
+					rf{"render.Blob" + q, "a/b", func(w http.ResponseWriter) error { return render.Blob(w, "a/b", bv) }, "=" + sv},
+				)
+			}
 			for _, fn := range fns {
 				st.Evals++
 				st.Nontrivial++
@@ -585,7 +602,11 @@ func c19Run(c c19Case, st *fw.Stats) []fw.Viol {
 				if err != nil || w.Header().Get("Content-Type") != want {
 					add("render:content-type", fmt.Sprintf("%s with preset Content-Type %q: Content-Type %q err=%v, expected %q", fn.name, preset, w.Header().Get("Content-Type"), err, want))
 				}
-				if fn.body != "" && w.Body.String() != fn.body {
+				if strings.HasPrefix(fn.body, "=") {
+					if w.Body.String() != fn.body[1:] {
+						add("render:body", fmt.Sprintf("%s with preset Content-Type %q: body %q", fn.name, preset, w.Body.String()))
+					}
+				} else if fn.body != "" && w.Body.String() != fn.body {
 					add("render:body", fmt.Sprintf("%s: body %q", fn.name, w.Body.String()))
 				}
 			}
@@ -655,6 +676,43 @@ func c19Run(c c19Case, st *fw.Stats) []fw.Viol {
 						add("helper:panic", fmt.Sprintf("ShouldRender(201, %T, JSON) panicked: %v", tc.val, pv))
 					} else if (got != nil) != tc.fail || (got != nil && strings.Contains(got.Error(), "recorded by an earlier middleware")) {
 						add("helper:should-render-error", fmt.Sprintf("ShouldRender(201, %T, JSON) (an error recorded earlier on the context: %v) returned %v; expected failure=%v of this rendering (status %d body %q)", tc.val, pre, got, tc.fail, w.Code, trunc(w.Body.String())))
+					}
+				}
+			}
+			// Context.AcceptedTypes, the list a negotiating handler reads, is the list of THIS request: every ordered pair of
+			// Accept headers on one router (the second request runs on a recycled context, asked twice), against a router
+			// that only ever saw the second header
+			{
+				accepted := func(r *rux.Router, accept string) string {
+					req := httptest.NewRequest("GET", "/acc", nil)
+					if accept != "" {
+						req.Header.Set("Accept", accept)
+					}
+					w := httptest.NewRecorder()
+					if pv := try(func() { r.ServeHTTP(w, req) }); pv != nil {
+						return fmt.Sprintf("panic: %v", pv)
+					}
+					return w.Body.String()
+				}
+				mk := func() *rux.Router {
+					r := rux.New()
+					r.GET("/acc", func(ctx *rux.Context) {
+						ctx.Text(200, strings.Join(ctx.AcceptedTypes(), "|")+"#"+strings.Join(ctx.AcceptedTypes(), "|"))
+					})
+					return r
+				}
+				for _, a := range c19Accepts {
+					for _, b := range c19Accepts {
+						st.Evals++
+						st.Nontrivial++
+						want := accepted(mk(), b)
+						r := mk()
+						_ = accepted(r, a)
+						for k := 0; k < 2; k++ {
+							if got := accepted(r, b); got != want {
+								add("negotiate:accepted-types-of-another-request", fmt.Sprintf("Context.AcceptedTypes() (read twice) for Accept %q on a router that served Accept %q before (request #%d with it): %q; a fresh router answers %q", b, a, k+1, got, want))
+							}
+						}
 					}
 				}
 			}
@@ -759,7 +817,7 @@ func c19Run(c c19Case, st *fw.Stats) []fw.Viol {
 var c19Spec = fw.Spec[c19Case]{
 	ID:    "C19",
 	Level: "model_checking",
-	Rule: "complete product: every helper on the context of a handler used directly as http.Handler; every helper alone on a fresh router after every ordered pair of 13 helper calls built one earlier response (differential against the pristine process); 11 context helpers x 8 status codes x value alphabets (7 strings with HTML / unicode / control characters; maps, structs, pointers, byte and int slices, scalars; unencodable chan / func / NaN / Inf / cyclic values / invalid json.RawMessage; json.RawMessage values incl. nil; two helper failures in one request with the same or with uncomparable error values; for Stream also 5 reader shapes and 5 sized readers that were partly read before - the rest is streamed and an announced Content-Length equals it) x preset Content-Type absent / present (HTTPError answers text/plain whatever was set before) x another status already selected by an earlier handler / an error already recorded by an earlier middleware (no OnError hook) / the request dispatched by HandleContext on a caller-owned context; 11 pkg/render functions x 3 preset Content-Types; render.Auto x ALL Accept lists of <=3 (thorough 4) entries over 10 entries (the five supported MIME strings, foo/bar, */*, q-parameters, empty) 4 JSON renderer settings (escaping / indentation) x 5 values holding HTML characters and the text of escape sequences; ShouldRender with and without an earlier recorded error; and 9 lists whose answering type (the first supported one listed, or the text/plain fallback) cannot encode the value (the failure is returned); " +
+	Rule: "complete product: every helper on the context of a handler used directly as http.Handler; every helper alone on a fresh router after every ordered pair of 13 helper calls built one earlier response (differential against the pristine process); 11 context helpers x 8 status codes x value alphabets (7 strings with HTML / unicode / control characters; maps, structs, pointers, byte and int slices, scalars; unencodable chan / func / NaN / Inf / cyclic values / invalid json.RawMessage; json.RawMessage values incl. nil; two helper failures in one request with the same or with uncomparable error values; for Stream also 5 reader shapes and 5 sized readers that were partly read before - the rest is streamed and an announced Content-Length equals it) x preset Content-Type absent / present (HTTPError answers text/plain whatever was set before) x another status already selected by an earlier handler / an error already recorded by an earlier middleware (no OnError hook) / the request dispatched by HandleContext on a caller-owned context; 11 pkg/render functions x 3 preset Content-Types (the six string / byte renderers over all 7 strings incl. the empty one and nil bytes); render.Auto x ALL Accept lists of <=3 (thorough 4) entries over 10 entries (the five supported MIME strings, foo/bar, */*, q-parameters, empty) 4 JSON renderer settings (escaping / indentation) x 5 values holding HTML characters and the text of escape sequences; ShouldRender with and without an earlier recorded error; Context.AcceptedTypes for every ordered pair of the 10 Accept headers on one router against a fresh router; and 9 lists whose answering type (the first supported one listed, or the text/plain fallback) cannot encode the value (the failure is returned); " +
 		"oracle: recorded status, documented Content-Type (preset preserved by every pkg/render renderer), body decodes back (JSONP unwrapped), first supported entry wins, encoding failures land in Context.Errors / the returned error; every evaluation is non-trivial except single-entry Accept lists",
 	Assume: []string{"text/html negotiation is the code's documented no-op and is modelled as such", "XML round trips use one struct type; encoding/xml has no cycle detection so cyclic values are not offered to it"},
 	Bounds: func(tier string) map[string]any {
